@@ -15,25 +15,11 @@ func ruleR18_1(w *World, r *Report) {
 	r.Rule("R18.1", "the notification is published only from the post-reply goroutine of the handler's exit function, which is started only when the handler had no error and stored at least one operation", 2)
 	v := newCGView(u, w.Thorough)
 	pub := u.Fn(pNotif, "Notifier", "NotifyAfterPushPull")
-	send := u.Fn(pService, "PushPullHandler", "sendNotification")
 	fin := u.Fn(pService, "PushPullHandler", "finalize")
-	if pub == nil || send == nil || fin == nil {
-		r.Lost("NotifyAfterPushPull / sendNotification / finalize")
+	if pub == nil || fin == nil {
+		r.Lost("NotifyAfterPushPull / finalize")
 		return
 	}
-	okCallers := true
-	who := ""
-	for _, c := range v.callers(pub) {
-		if c.Parent() != send {
-			okCallers, who = false, fnName(c.Parent())
-		}
-	}
-	for _, c := range v.callers(send) {
-		if c.Parent().Parent() != fin {
-			okCallers, who = false, fnName(c.Parent())
-		}
-	}
-	r.Check(okCallers, "NotifyAfterPushPull/only from the post-reply goroutine", u.Pos(send.Pos()), "finalize's goroutine -> sendNotification -> NotifyAfterPushPull", "the notification is also published from "+who)
 	var g *ssa.Go
 	forEachInstr(fin, func(in ssa.Instruction) {
 		if x, ok := in.(*ssa.Go); ok {
@@ -44,6 +30,40 @@ func ruleR18_1(w *World, r *Report) {
 		r.Bad("finalize/post-reply goroutine gated", u.Pos(fin.Pos()), "the post-reply goroutine is gone: pushes are no longer announced")
 		return
 	}
+	// functions that run only inside the post-reply goroutine
+	allowed := map[*ssa.Function]bool{}
+	if gf := staticCallee(g); gf != nil {
+		allowed[gf] = true
+	}
+	for changed := true; changed; {
+		changed = false
+		for f := range allowed {
+			for _, c := range callsIn(f) {
+				h := staticCallee(c)
+				if h == nil || allowed[h] || h.Pkg == nil || h.Pkg.Pkg.Path() != pService {
+					continue
+				}
+				only := true
+				for _, cs := range v.callers(h) {
+					if !allowed[cs.Parent()] {
+						only = false
+					}
+				}
+				if only {
+					allowed[h] = true
+					changed = true
+				}
+			}
+		}
+	}
+	okCallers := len(v.callers(pub)) > 0
+	who := "nobody"
+	for _, c := range v.callers(pub) {
+		if !allowed[c.Parent()] {
+			okCallers, who = false, fnName(c.Parent())
+		}
+	}
+	r.Check(okCallers, "NotifyAfterPushPull/only from the post-reply goroutine", u.Pos(g.Pos()), "finalize's goroutine (-> helper) -> NotifyAfterPushPull", "the notification is published from "+who+", expected only the post-reply goroutine of finalize")
 	lits, _ := litStrings(fin, g)
 	lin, _ := pathLinCmps(fin, g, nil)
 	good := allPathsContain(lits, "$0.err == nil") && allPathsHave(lin, "-len($0.pushingOperations) < 0")
@@ -54,20 +74,31 @@ func ruleR18_1(w *World, r *Report) {
 func ruleR18_2(w *World, r *Report) {
 	u := w.Server()
 	r.Rule("R18.2", "the notification carries the pusher's client id, the datatype's id and the handler's new end of the log, and is published on the topic of collection name and datatype key", 5)
-	send := u.Fn(pService, "PushPullHandler", "sendNotification")
 	pub := u.Fn(pNotif, "Notifier", "NotifyAfterPushPull")
-	if send == nil || pub == nil {
-		r.Lost("sendNotification / NotifyAfterPushPull")
+	fin := u.Fn(pService, "PushPullHandler", "finalize")
+	if fin == nil || pub == nil {
+		r.Lost("finalize / NotifyAfterPushPull")
 		return
 	}
-	for _, c := range callsNamed(send, "NotifyAfterPushPull") {
-		a := c.Common().Args
+	var gf *ssa.Function
+	forEachInstr(fin, func(in ssa.Instruction) {
+		if x, ok := in.(*ssa.Go); ok {
+			gf = staticCallee(x)
+		}
+	})
+	if gf == nil {
+		r.Lost("finalize: post-reply goroutine")
+		return
+	}
+	d := deepOfDepth(gf, 2)
+	for _, x := range d.calls("NotifyAfterPushPull") {
+		a := x.in.(ssa.CallInstruction).Common().Args
 		var got []string
-		for _, x := range a[len(a)-4:] {
-			got = append(got, canonName(x))
+		for _, arg := range a[len(a)-4:] {
+			got = append(got, d.name(x.n, arg))
 		}
 		want := "$0.collectionDoc.Name | $0.CUID | $0.datatypeDoc | $0.currentCP.Sseq"
-		r.Check(strings.Join(got, " | ") == want, "sendNotification/arguments", u.Pos(c.Pos()), strings.Join(got, ", "), "the notification is built from ("+strings.Join(got, ", ")+"); expected (collection name, handler CUID, datatype document, current server sequence)")
+		r.Check(strings.Join(got, " | ") == want, "notification/arguments", d.pos(u, x), strings.Join(got, ", "), "the notification is built from ("+strings.Join(got, ", ")+"); expected (collection name, handler CUID, datatype document, current server sequence)")
 	}
 	for _, f := range []struct{ field, want string }{{"CUID", "$3"}, {"DUID", "$4.DUID"}, {"Sseq", "$5"}} {
 		sts := storesTo(pub, "."+f.field)
@@ -142,30 +173,36 @@ func ruleR18_4(w *World, r *Report) {
 	u := w.Client()
 	r.Rule("R18.4", "ReceiveNotification returns before any sync when the notification's CUID is the client's own; otherwise it syncs the datatype of that key and DUID iff the announced end of the log is beyond the client's checkpoint", 3)
 	rcv := u.Fn(pCManagers, "DatatypeManager", "ReceiveNotification")
-	sip := u.Fn(pCManagers, "DatatypeManager", "syncIfNeedPull")
-	if rcv == nil || sip == nil {
-		r.Lost("ReceiveNotification / syncIfNeedPull")
+	if rcv == nil {
+		r.Lost("ReceiveNotification")
 		return
 	}
+	d := deepOfDepth(rcv, 1)
 	found := false
-	for _, c := range callsNamed(rcv, "syncIfNeedPull", "sync", "syncPushPullPacks") {
+	for _, x := range d.calls("sync", "syncPushPullPacks") {
 		found = true
-		lits, _ := litStrings(rcv, c.(ssa.Instruction))
-		good := allPathsContain(lits, "$0.ctx.Client.CUID != $2.CUID") && allPathsContain(lits, "GetDUID() == $2.DUID")
-		a := c.Common().Args
-		good = good && canonName(a[len(a)-1]) == "$2.Sseq"
-		r.Check(good, "ReceiveNotification/own notification ignored", u.Pos(c.Pos()), "sync only for foreign notifications of the same DUID, with the announced Sseq", fmt.Sprintf("the sync is reached under %v", lits))
+		paths, ok := d.paths(x, nil)
+		good := ok && allLitPathsContain(paths, "$0.ctx.Client.CUID != $2.CUID", "GetDUID() == $2.DUID")
+		r.Check(good, "ReceiveNotification/own notification ignored", d.pos(u, x), "sync only for foreign notifications of the same DUID", fmt.Sprintf("the sync is reached under %v", strsOf(paths)))
+		behind := ok && len(paths) > 0
+		for _, p := range paths {
+			okp := false
+			for _, l := range p.strs {
+				if strings.HasPrefix(l, "NeedPull(") {
+					okp = true
+				}
+			}
+			behind = behind && okp
+		}
+		r.Check(behind, "ReceiveNotification/sync iff behind", d.pos(u, x), "sync iff NeedPull(sseq)", fmt.Sprintf("the sync is reached under %v, expected NeedPull(announced sseq)", strsOf(paths)))
 	}
 	if !found {
 		r.Bad("ReceiveNotification/own notification ignored", u.Pos(rcv.Pos()), "a notification no longer triggers a sync")
 	}
-	for _, c := range callsNamed(sip, "sync") {
-		lits, _ := litStrings(sip, c.(ssa.Instruction))
-		r.Check(allPathsContain(lits, "NeedPull($1)"), "syncIfNeedPull/iff behind", u.Pos(c.Pos()), "sync iff NeedPull(sseq)", fmt.Sprintf("the sync is reached under %v, expected NeedPull(sseq)", lits))
-		for _, np := range callsNamed(sip, "NeedPull") {
-			a := np.Common().Args
-			r.Check(canonName(a[len(a)-1]) == "$2", "syncIfNeedPull/announced sseq", u.Pos(np.Pos()), "NeedPull(sseq)", "NeedPull is asked about "+canonName(a[len(a)-1]))
-		}
+	for _, x := range d.calls("NeedPull") {
+		a := x.in.(ssa.CallInstruction).Common().Args
+		got := d.name(x.n, a[len(a)-1])
+		r.Check(got == "$2.Sseq", "ReceiveNotification/announced sseq", d.pos(u, x), "NeedPull(notification.Sseq)", "NeedPull is asked about "+got)
 	}
 	if np := u.Fn(pDatatypes, "WiredDatatype", "NeedPull"); np != nil {
 		forEachInstr(np, func(in ssa.Instruction) {
